@@ -43,6 +43,18 @@
  *   trace: NC:<sid> (session created), +,-,F,T,U,C as above, H:<slot>:<sid> (response or nack
  *   handler ran), B[<sid>:<ref>;...] W[<sid>:<nq>:<napp>;...] (context->sessions)
  *
+ * Stream histories:  st <seed> <session_timeout_s> <op>*   (CoAP over TCP server endpoint on a
+ *   unix-domain stream socket; connections i = 0..15; coap_socket_read / coap_socket_write of
+ *   the accepted sessions are interposed, the accept itself is real)
+ *   conn:<i>          a client connects and is accepted through coap_io_do_epoll
+ *   csm:<i>           the client's CSM arrives (session becomes ESTABLISHED)
+ *   get:<i>:<r|h|a>   GET /r (plain), /h (handler keeps an application reference), /a (async
+ *                     entry, answered 2 s later)
+ *   close:<i>         the peer closes the connection (read error): the session goes to NONE
+ *   ref:<i> rel:<i> relall adv:<ms> prep free     as above
+ *   extra trace tokens: A:<key>:<now> (accept, key = 1000 + i), R:<sid>:<now> (bytes read),
+ *   S[<sid>:<state>;...] (session states at a boundary); F carries the state as 9th field
+ *
  * Result line:  <trace> | <allocation trace> | <statistics>
  * trace tokens (in the order things happened):
  *   X:<key>:<now> Y:<sid>     coap_endpoint_get_session called / returned (sid 0 = NULL)
@@ -62,6 +74,9 @@
  */
 #include "coap3/coap_libcoap_build.h"
 #include <stdarg.h>
+#include <sys/socket.h>
+#include <sys/un.h>
+#include <unistd.h>
 #include "common/util.h"
 #include "common/vnet.h"
 #include "common/valloc.h"
@@ -118,8 +133,15 @@ static void addr_of_key(coap_address_t *a, int p) {
   vn_addr4(a, 0x0a000001u + (uint32_t)(p / 4), (uint16_t)(40000 + p % 4));
 }
 
+static int st_mode = 0;                 /* stream history: sessions are identified by slot */
+static int st_napp_of(const coap_session_t *s);
+static long st_key_of(const coap_session_t *s);
+static long skey_of(const coap_session_t *s) {
+  return st_mode ? st_key_of(s) : key_of_addr(&s->addr_info.remote);
+}
 static int napp_of(const coap_session_t *s) {
   int n = 0;
+  if (st_mode) return st_napp_of(s);
   for (int p = 0; p < MAXP; p++)
     if (app_sess[p] == s) n += app_refs[p];
   return n;
@@ -155,7 +177,8 @@ static void on_free(int type, void *p, uint32_t id) {
   int sid = sid_of(s);
   int nq, nobs, nasync;
   holders_of(s, &nq, &nobs, &nasync);
-  emit("F:%d:%u:%d:%d:%d:%d:%d", sid, s->ref, nq, nobs, nasync, napp_of(s), s->delayqueue == NULL);
+  emit("F:%d:%u:%d:%d:%d:%d:%d:%d", sid, s->ref, nq, nobs, nasync, napp_of(s), s->delayqueue == NULL,
+       (int)s->state);
   if (sid) sess[sid - 1].live = 0;
 }
 
@@ -205,10 +228,10 @@ static void on_send(size_t idx) {
 static int evref_mod = 0;   /* > 0: the SESSION_NEW handler keeps sessions of peers p % mod == 0 */
 static int on_event(coap_session_t *s, const coap_event_t ev) {
   if (ev == COAP_EVENT_SERVER_SESSION_NEW) {
-    long p = key_of_addr(&s->addr_info.remote);
+    long p = st_mode ? st_key_of(s) : key_of_addr(&s->addr_info.remote);
     int sid = checked_sid(s, "event_new");
     emit("N:%d:%ld", sid, p);
-    if (evref_mod > 0 && sid && p >= 0 && p < MAXP && p % evref_mod == 0) {
+    if (!st_mode && evref_mod > 0 && sid && p >= 0 && p < MAXP && p % evref_mod == 0) {
       emit("+:%d:1", sid);
       coap_session_reference(s);
       app_refs[p]++;
@@ -299,7 +322,7 @@ static void snapshot(void) {
       ob = (char *)realloc(ob, ob_cap);
     }
     ob_len += (size_t)snprintf(ob + ob_len, ob_cap - ob_len, "%s%d:%ld:%u:%llu:%d", first ? "" : ";",
-                               sid_of(s), key_of_addr(&s->addr_info.remote), s->ref,
+                               sid_of(s), skey_of(s), s->ref,
                                (unsigned long long)s->last_rx_tx, s->delayqueue == NULL);
     first = 0;
   }
@@ -321,6 +344,21 @@ static void snapshot(void) {
   }
   ob[ob_len++] = ']';
   ob[ob_len] = 0;
+  if (st_mode) {
+    emit("S[");
+    first = 1;
+    SESSIONS_ITER(g_ep->sessions, s, tmp) {
+      if (ob_cap - ob_len < 256) {
+        ob_cap *= 2;
+        ob = (char *)realloc(ob, ob_cap);
+      }
+      ob_len += (size_t)snprintf(ob + ob_len, ob_cap - ob_len, "%s%d:%d", first ? "" : ";", sid_of(s),
+                                 (int)s->state);
+      first = 0;
+    }
+    ob[ob_len++] = ']';
+    ob[ob_len] = 0;
+  }
 }
 
 /* ------------------------------------------------------------------ scripted peers */
@@ -858,6 +896,301 @@ static void run_client_history(void) {
   fflush(stdout);
 }
 
+/* ------------------------------------------------------------------ stream (TCP) histories */
+static uintptr_t t_hp[MAXC];             /* hidden session pointer per connection */
+static int t_refs[MAXC];                 /* application references per connection */
+static int t_fd[MAXC];                   /* client side of the connection */
+static int t_cur = -1;                   /* connection being accepted */
+static const uint8_t *t_buf;             /* bytes that have arrived for t_rd */
+static size_t t_len, t_pos;
+static int t_eof;
+static coap_socket_t *t_rd = NULL;       /* socket the arrival is for */
+static char t_path[108];
+
+static coap_session_t *t_sess(int i) {
+  return t_hp[i] ? (coap_session_t *)(t_hp[i] ^ VA_HIDE) : NULL;
+}
+static int t_slot_of(const coap_session_t *s) {
+  for (int i = 0; i < MAXC; i++)
+    if (t_hp[i] && t_hp[i] == VA_HP(s)) return i;
+  return -1;
+}
+static long st_key_of(const coap_session_t *s) {
+  int i = t_slot_of(s);
+  return i >= 0 ? 1000 + i : (t_cur >= 0 ? 1000 + t_cur : -1);
+}
+static int st_napp_of(const coap_session_t *s) {
+  int i = t_slot_of(s);
+  return i >= 0 ? t_refs[i] : 0;
+}
+
+ssize_t __real_coap_socket_read(coap_socket_t *sock, uint8_t *data, size_t data_len);
+ssize_t __real_coap_socket_write(coap_socket_t *sock, const uint8_t *data, size_t data_len);
+
+ssize_t __wrap_coap_socket_read(coap_socket_t *sock, uint8_t *data, size_t data_len) {
+  if (!st_mode) return __real_coap_socket_read(sock, data, data_len);
+  if (sock != t_rd) {
+    sock->flags &= ~COAP_SOCKET_CAN_READ;
+    errno = EAGAIN;
+    return 0;
+  }
+  size_t avail = t_len - t_pos;
+  if (avail == 0) {
+    sock->flags &= ~COAP_SOCKET_CAN_READ;
+    if (t_eof) {
+      errno = ECONNRESET;
+      return -1;
+    }
+    errno = EAGAIN;
+    return 0;
+  }
+  size_t n = avail < data_len ? avail : data_len;
+  memcpy(data, t_buf + t_pos, n);
+  t_pos += n;
+  if (n < data_len) sock->flags &= ~COAP_SOCKET_CAN_READ;
+  return (ssize_t)n;
+}
+
+ssize_t __wrap_coap_socket_write(coap_socket_t *sock, const uint8_t *data, size_t data_len) {
+  if (!st_mode) return __real_coap_socket_write(sock, data, data_len);
+  if (sock->session) {
+    int sid = checked_sid(sock->session, "write");
+    if (sid) emit("T:%d:%llu", sid, (unsigned long long)vn_now);
+  }
+  return (ssize_t)data_len;
+}
+
+static void st_note_handler(coap_session_t *s) {
+  emit("H:%ld:%d", st_key_of(s), checked_sid(s, "handler"));
+}
+static void st_h_plain(coap_resource_t *r, coap_session_t *s, const coap_pdu_t *req,
+                       const coap_string_t *q, coap_pdu_t *resp) {
+  (void)r; (void)req; (void)q;
+  st_note_handler(s);
+  coap_pdu_set_code(resp, COAP_RESPONSE_CODE_CONTENT);
+}
+static void st_h_hold(coap_resource_t *r, coap_session_t *s, const coap_pdu_t *req,
+                      const coap_string_t *q, coap_pdu_t *resp) {
+  (void)r; (void)req; (void)q;
+  st_note_handler(s);
+  int i = t_slot_of(s);
+  int sid = checked_sid(s, "app_reference");
+  if (i >= 0 && sid) {
+    emit("+:%d:1", sid);
+    coap_session_reference(s);
+    t_refs[i]++;
+  }
+  coap_pdu_set_code(resp, COAP_RESPONSE_CODE_CONTENT);
+}
+static void st_h_async(coap_resource_t *r, coap_session_t *s, const coap_pdu_t *req,
+                       const coap_string_t *q, coap_pdu_t *resp) {
+  (void)r; (void)q;
+  st_note_handler(s);
+  coap_bin_const_t token = coap_pdu_get_token(req);
+  if (!coap_find_async(s, token)) {
+    if (coap_register_async(s, req, 2 * COAP_TICKS_PER_SECOND)) return;
+    coap_pdu_set_code(resp, COAP_RESPONSE_CODE_SERVICE_UNAVAILABLE);
+    return;
+  }
+  coap_pdu_set_code(resp, COAP_RESPONSE_CODE_CONTENT);
+}
+
+/* bytes arrive on connection i (eof: the peer has closed); the level-triggered loop */
+static void st_deliver(int i, const uint8_t *b, size_t n, int eof) {
+  coap_session_t *s = t_sess(i);
+  if (!s || !sid_of(s)) return;
+  if (s->sock.flags == COAP_SOCKET_EMPTY) return;    /* already closed by the library */
+  t_buf = b;
+  t_len = n;
+  t_pos = 0;
+  t_eof = eof;
+  t_rd = &s->sock;
+  if (n) emit("R:%d:%llu", sid_of(s), (unsigned long long)vn_now);
+  for (int guard = 0; guard < 8; guard++) {
+    struct epoll_event e;
+    size_t before = t_pos;
+    memset(&e, 0, sizeof(e));
+    e.events = EPOLLIN;
+    e.data.ptr = t_rd;
+    coap_io_do_epoll(g_ctx, &e, 1);
+    if (eof || t_pos >= t_len || t_pos == before) break;
+    s = t_sess(i);
+    if (!s || !sid_of(s) || s->sock.flags == COAP_SOCKET_EMPTY) break;
+  }
+  t_rd = NULL;
+  t_buf = NULL;
+  t_len = t_pos = 0;
+  t_eof = 0;
+  emit("P:%llu", (unsigned long long)vn_now);
+}
+
+static void st_drop_app_refs(void) {
+  for (int i = 0; i < MAXC; i++) {
+    while (t_refs[i] > 0) {
+      coap_session_t *s = t_sess(i);
+      int sid = checked_sid(s, "app_release");
+      t_refs[i]--;
+      if (sid) {
+        emit("-:%d:1", sid);
+        coap_session_release(s);
+      }
+    }
+  }
+}
+
+static void run_stream_history(void) {
+  unsigned long seed = strtoul(vtok[1], NULL, 10);
+  unsigned timeout = (unsigned)strtoul(vtok[2], NULL, 10);
+  ob_len = 0;
+  if (!ob) {
+    ob_cap = 65536;
+    ob = (char *)malloc(ob_cap);
+  }
+  ob[0] = 0;
+  va_reset();
+  vn_log_reset();
+  vn_nnodes = 0;
+  vn_now = 1000;
+  vn_prng_seed(seed);
+  vn_on_send = on_send;
+  nsess = 0;
+  n_uaf_marks = 0;
+  evref_mod = 0;
+  st_mode = 1;
+  t_cur = -1;
+  memset(t_hp, 0, sizeof(t_hp));
+  memset(t_refs, 0, sizeof(t_refs));
+  for (int i = 0; i < MAXC; i++) t_fd[i] = -1;
+  memset(app_refs, 0, sizeof(app_refs));
+  memset(app_sess, 0, sizeof(app_sess));
+  va_on_alloc = on_alloc;
+  va_on_free = on_free;
+  /* libcoap binds unix-domain addresses with a 28-byte sockaddr: at most 25 characters */
+  snprintf(t_path, sizeof(t_path), "/var/tmp/verif.12.%d", (int)getpid());
+  unlink(t_path);
+
+  g_ctx = coap_new_context(NULL);
+  coap_context_set_session_timeout(g_ctx, timeout);
+  coap_register_event_handler(g_ctx, on_event);
+  {
+    coap_address_t addr;
+    coap_address_set_unix_domain(&addr, (const uint8_t *)t_path, strlen(t_path));
+    g_ep = coap_new_endpoint(g_ctx, &addr, COAP_PROTO_TCP);
+  }
+  add_res("r", st_h_plain, 0, 0);
+  add_res("h", st_h_hold, 0, 0);
+  add_res("a", st_h_async, 0, 0);
+  if (!g_ep) {
+    printf("ERROR no stream endpoint\n");
+    coap_free_context(g_ctx);
+    g_ctx = NULL;
+    st_mode = 0;
+    return;
+  }
+  snapshot();
+  for (int t = 3; t < vntok && g_ctx; t++) {
+    char *op = vtok[t];
+    if (!strncmp(op, "conn:", 5)) {
+      int i = atoi(op + 5);
+      if (i < 0 || i >= MAXC || t_hp[i]) continue;
+      struct sockaddr_un sa;
+      int fd = socket(AF_UNIX, SOCK_STREAM, 0);
+      memset(&sa, 0, sizeof(sa));
+      sa.sun_family = AF_UNIX;
+      strncpy(sa.sun_path, t_path, sizeof(sa.sun_path) - 1);
+      if (fd < 0 || connect(fd, (struct sockaddr *)&sa, sizeof(sa)) < 0) {
+        fprintf(stderr, "st: connect %s: %s\n", t_path, strerror(errno));
+        if (fd >= 0) close(fd);
+        continue;
+      }
+      t_fd[i] = fd;
+      t_cur = i;
+      int before = nsess;
+      emit("A:%d:%llu", 1000 + i, (unsigned long long)vn_now);
+      struct epoll_event e;
+      memset(&e, 0, sizeof(e));
+      e.events = EPOLLIN;
+      e.data.ptr = &g_ep->sock;
+      /* the session object is allocated inside; remember it as soon as it exists so that the
+       * SESSION_NEW handler can name it */
+      coap_io_do_epoll(g_ctx, &e, 1);
+      if (nsess > before) t_hp[i] = sess[nsess - 1].hp;
+      t_cur = -1;
+      emit("P:%llu", (unsigned long long)vn_now);
+    } else if (!strncmp(op, "csm:", 4)) {
+      static const uint8_t csm[] = {0x00, 0xe1};
+      int i = atoi(op + 4);
+      if (i >= 0 && i < MAXC) st_deliver(i, csm, sizeof(csm), 0);
+    } else if (!strncmp(op, "get:", 4)) {
+      int i = atoi(op + 4);
+      char *c = strchr(op + 4, ':');
+      uint8_t g[5] = {0x21, 0x01, 0xaa, 0xb1, 'r'};
+      if (c && (c[1] == 'h' || c[1] == 'a')) g[4] = (uint8_t)c[1];
+      if (i >= 0 && i < MAXC) {
+        g[2] = (uint8_t)(0xa0 + i);
+        st_deliver(i, g, sizeof(g), 0);
+      }
+    } else if (!strncmp(op, "close:", 6)) {
+      int i = atoi(op + 6);
+      if (i >= 0 && i < MAXC) {
+        if (t_fd[i] >= 0) {
+          close(t_fd[i]);
+          t_fd[i] = -1;
+        }
+        st_deliver(i, (const uint8_t *)"", 0, 1);
+      }
+    } else if (!strncmp(op, "ref:", 4)) {
+      int i = atoi(op + 4);
+      coap_session_t *s = (i >= 0 && i < MAXC) ? t_sess(i) : NULL;
+      if (s && sid_of(s)) {
+        emit("+:%d:1", sid_of(s));
+        coap_session_reference(s);
+        t_refs[i]++;
+      }
+    } else if (!strncmp(op, "rel:", 4)) {
+      int i = atoi(op + 4);
+      if (i >= 0 && i < MAXC && t_refs[i] > 0) {
+        coap_session_t *s = t_sess(i);
+        int sid = checked_sid(s, "app_release");
+        t_refs[i]--;
+        if (sid) {
+          emit("-:%d:1", sid);
+          coap_session_release(s);
+        }
+      }
+    } else if (!strcmp(op, "relall")) {
+      st_drop_app_refs();
+    } else if (!strncmp(op, "adv:", 4)) {
+      vn_advance((coap_tick_t)strtoull(op + 4, NULL, 10));
+    } else if (!strcmp(op, "prep")) {
+      vn_prepare(g_ctx);
+      emit("P:%llu", (unsigned long long)vn_now);
+    } else if (!strcmp(op, "free")) {
+      teardown();
+    }
+    snapshot();
+  }
+  if (g_ctx) {
+    st_drop_app_refs();
+    teardown();
+    snapshot();
+  }
+  for (int i = 0; i < MAXC; i++)
+    if (t_fd[i] >= 0) close(t_fd[i]);
+  unlink(t_path);
+  vn_log_reset();
+  unsigned long uaf = va_flush();
+  fputs(ob, stdout);
+  fputs(" | ", stdout);
+  va_dump(stdout);
+  printf(" | uaf_writes=%lu bad_frees=%lu uaf_marks=%u live=%zu types=", uaf, va_bad_frees,
+         n_uaf_marks, va_live_count());
+  va_dump_live_types(stdout);
+  printf(" sessions=%d\n", nsess);
+  fflush(stdout);
+  st_mode = 0;
+}
+
 int main(void) {
   coap_startup();
   coap_set_log_level(COAP_LOG_EMERG);
@@ -865,6 +1198,10 @@ int main(void) {
   while (next_case(stdin)) {
     if (vntok >= 2 && !strcmp(vtok[0], "sc")) {
       run_client_history();
+      continue;
+    }
+    if (vntok >= 3 && !strcmp(vtok[0], "st")) {
+      run_stream_history();
       continue;
     }
     if (vntok < 4 || strcmp(vtok[0], "se")) {
